@@ -1,6 +1,50 @@
 CFG = {
     "id": "C12",
-    "level_text": "placeholder",
+    "level_text": "Proof for the model, the reference semantics and the interval checker, for all operation lists and all instants: "
+                  "the Gallina model of app/bcache (member map + deadline index, explicit clock, repairs D3/D24) returns what the "
+                  "index-free reference map returns (C12_refines) and keeps 'index = exactly the timed keys' (C12_index); Get returns the "
+                  "entry last stored and not deleted/cleared since, never past its deadline and always while now + g < deadline "
+                  "(C12_get_live, g = float64 score granularity, 256 ns today); untimed entries survive every sweep and a sweep removes "
+                  "exactly the timed entries with score in [0, fl now] (C12_untimed_survive, C12_sweep_exact, C12_count); SetIfAbsent / Replace "
+                  "conditions (C12_setifabsent, C12_replace); Export then Clear+Load reproduces the non-expired entries with deadlines and a "
+                  "rebuilt index (C12_roundtrip); the interval checker that judges recorded traces never rejects observations the reference "
+                  "semantics can produce for some instants inside the recorded clock brackets (C12_admissible_complete, "
+                  "C12_kind2_iff_inadmissible). PARTIAL for wall-clock behaviour: the real time.Now readings, ticker latency and scheduling "
+                  "are sampled, not proved: every run executes ~2400 short traces of the real package (each call bracketed by clock readings, "
+                  "member map and zset index dumped after it and compared with the model run inside Coq) and 32 real-ticker runs "
+                  "(10 ms sentinel, Count after an allowance of 10 intervals).",
+    "level_note": "PARTIAL: (1) soundness of the interval checker is proved only for decided traces and only up to the exact deadline "
+                  "values (C12_decided_sound_partial: if the strict interpretation decided_b accepts, the reference semantics gives the observed "
+                  "booleans/hits/misses/values/counts/exported keys for every choice of instants; DESIGN's admissible_sound_decided with literal "
+                  "equality of outputs is false, because an observed deadline fixes the instant its store read); for undecided traces acceptance is "
+                  "complete (no false alarm) but only per-entry explainable. check_case uses admissible_b; how many traces had no deadline inside "
+                  "any call bracket is counted by the harness (notes), not inside Coq. (2) 'within a few intervals' is only exercised by the "
+                  "real-ticker runs. (3) In the window deadline-g <= now <= deadline the repaired code may already have swept an entry (the sweeper "
+                  "compares float64-rounded scores, Get compares integers): the theorems state exactly that window instead of hiding it. "
+                  "(4) Load over a NON-empty cache (outside the property) can leave a stale deadline in the index (setDeadline has no Remove); "
+                  "the model mirrors it, C12_roundtrip/C12_index cover Clear+Load only.",
     "harness": "c12",
-    "theorems": [],
+    "theorems": [("C12.Props", [
+        "C12_refines", "C12_index", "C12_get_live_generic", "C12_get_live", "C12_untimed_survive", "C12_sweep_exact",
+        "C12_setifabsent", "C12_replace", "C12_count", "C12_roundtrip", "C12_f64r_round", "C12_admissible_complete",
+        "C12_kind2_iff_inadmissible", "C12_decided_sound_partial"])],
+    "trusted": [
+        "every call of one goroutine reads the clock inside the two wall-clock readings recorded around it (traces whose wall clock "
+        "disagrees with the monotonic clock by > 1 ms or steps backwards are dropped and counted, never judged)",
+        "witness instants proposed by the harness (deadline - ttl for stores, bracket ends for hits/misses, a separating instant for "
+        "sweeps and loads) are only checked inside Coq, not trusted",
+        "Get (which shows no deadline) is recorded with the Expire field read through the verif accessor; GetWithExpire uses its own result",
+    ],
+    "modelled": [
+        "zset skip list + dict abstracted to one list sorted by (score, key) (levels, spans, heights are C03/C17's subject)",
+        "float64(int64) score conversion as f64r g = nearest multiple of g, ties to even (g = 256 for 2^60 <= ns < 2^61; the harness "
+        "asserts the range and the index dump is compared with f64r on every step)",
+        "time.Now: one instant per call as an explicit input (Replace and Load read the clock more than once; one instant suffices, see Model.v; "
+        "a Load whose entries straddle its own bracket inconsistently is dropped and counted)",
+        "sentinel ticker: sweeps are explicit trace steps through VerifSweep; the real ticker is only sampled",
+        "encoding/json as a codec of map[K]Iterator (Export output parsed by the harness)",
+    ],
+    "assumptions": ["UnixNano in [2^60, 2^61) (years 2006-2043)", "restore data: unique keys, deadlines >= 0 (op_wf)",
+                    "positive, non-decreasing instants (times_ok) for the declarative theorems"],
+    "harness_timeout": 600,
 }
